@@ -170,6 +170,47 @@ CLAIMS = {
              "renamed).",
         technique="static analysis: data-dependence and branch-wise definitions on MIR",
     ),
+    "C16": dict(
+        text="Decides: the four built-in transfer functions are non-decreasing on [0,1] and the "
+             "table-entry expression of MappingTable::new is non-decreasing in the index for any "
+             "non-decreasing transfer function (piecewise abstract interpretation over "
+             "monotonicity x interval); map_with_gaps is called with gap step N exactly in the arm "
+             "for N components and sends the alpha position through into_component, everything "
+             "else through the table; all 16 map_image calls are dominated by the width and "
+             "height comparisons. Does NOT decide that entries equal the rounded transfer "
+             "function, the endpoints, or the 8->16->8 round trip.",
+        note="powf/exp/round/clamp transfer functions are part of the trusted tables; const "
+             "generic SIZE is assumed >= 2.",
+        technique="static analysis: abstract interpretation (monotonicity x interval, input "
+                  "partitioned at compared constants) + guard dominance on MIR",
+    ),
+    "C17": dict(
+        text="Decides monotonicity of all 13 IntoPixelComponent impls by piecewise abstract "
+             "interpretation (casts, shifts, clamp, saturating_add, byte extraction, division by "
+             "constants with sign), including definite non-monotonicity (division of the negative "
+             "half by a negative constant: two known findings; wrapping narrowings); the typed "
+             "entry point writes only after both dimension equalities; W4 (thorough): different "
+             "component counts do not type-check. Endpoint values and widening round trips are "
+             "NOT decided.",
+        note="Verdict 'decreasing' needs a non-degenerate output interval on a non-degenerate "
+             "input piece.",
+        technique="static analysis: abstract interpretation (monotonicity x interval) on MIR + "
+                  "compile-fail witness",
+        witness=True,
+    ),
+    "C18": dict(
+        text="Decides the three mechanisms the property names: Box/Bilinear/Hamming/Gaussian "
+             "kernel functions return values in [0, inf) on every piece of their domain; pixel "
+             "data is never sign-extended before the signed multiply-add (intrinsic scan of all "
+             "kernel modules + constant shuffle masks); every destination store of the 8/16-bit "
+             "SIMD convolution kernels passes a saturating narrowing of the component width (all "
+             "back-ends in the thorough tier). Accumulator wrap and monotonicity of the "
+             "shift/round pipeline on runtime values are NOT decided.",
+        note="sin is bounded by [0,1] on [0,pi], cos by [-1,1]; intrinsic tables in "
+             "fircheck/engines/{deps,simd_rules}.py.",
+        technique="static analysis: interval evaluation of scalar kernels + data-dependence "
+                  "(derived-through / never-through) over MIR expression DAGs",
+    ),
     "C02": dict(
         text="Structural necessary conditions for SIMD == native, decided for all paths and build "
              "configurations (x86, x86+rayon, aarch64/NEON, wasm32/SIMD128): every CpuExtensions "
@@ -177,7 +218,11 @@ CLAIMS = {
              "arguments of the native arm, no SIMD kernel is shared by two operations or named like "
              "another operation's native kernel; target-feature closure of each arm is implied by "
              "the variant; precision tables (constify_imm8!) cover the normaliser's precision "
-             "interval without holes, arm k instantiates PRECISION=k, no producible arm is empty. "
+             "interval without holes, arm k instantiates PRECISION=k, no producible arm is empty; "
+             "every destination store of an 8/16-bit SIMD convolution kernel is derived from the "
+             "accumulator through a saturating narrowing of the component width; pixel data is "
+             "never sign-extended (no sign-extending widening intrinsic, shuffle masks feeding "
+             "madd_epi16 zero the high byte of each lane). "
              "Bit equality of the computed pixels is NOT decided.",
         note="Trusted: rustc type checker/MIR, firdrv, back-end module naming (avx2/sse4/neon/"
              "wasm32/native). Numerical equality of kernels is out of reach of this technique.",
